@@ -204,6 +204,18 @@ NotComment: /((\\*[^\\/])|[^\\s*\\/]|\\/[^\\*])+/;
 add("h_nested_comments_glr", None, algo="glr", stem="h_nested_comments", inline=open(os.path.join(OUT, "h_nested_comments", "h_nested_comments.rustemo")).read(),
     sentences=["1 /* a /* nested */ b */ 2 // line\n3", "/* c */1/* d */2", "1 2 3", "1"],
     w=True, w_reason="layout rule; W uses ASCII whitespace only", w_ascii_only=True)
+# a Layout rule with a *direct* EMPTY alternative (the last layout reduction can be empty)
+for algo in ("lr", "glr"):
+    add(f"h_layout_direct_empty_{algo}", None, algo=algo, stem="words", inline="""S: Word+;
+Layout: LayoutItems | EMPTY;
+LayoutItems: LayoutItems LayoutItem | LayoutItem;
+LayoutItem: WS | Comment;
+terminals
+Word: /[a-z]+/;
+WS: /\\s+/;
+Comment: /#.*/;
+""", sentences=["foo bar", "foo # c\n bar baz", "foo", " foo  bar "], invalid=["foo ?", " ?", "?", "foo? bar", ""],
+        w=True, w_reason="layout rule; W uses ASCII whitespace only", w_ascii_only=True)
 # two tokenisations that reach the SAME LR state at different offsets
 add("h_tokcount_same_state", None, algo="glr", inline="""S: X A Z;
 X: A | AA;
